@@ -658,6 +658,73 @@ theorem outer_model {X : Type} (G1 G2 : Func K) (B : Nat → X → Info K) (ys1 
         exact outerOp_getD (· * ·) G1.npts G1.ncomp G2.npts G2.ncomp G1.c G2.c k1 k2 b hk1 hk2 hb)
 
 
+
+omit [Field K] in
+theorem size_append (r1 r2 : List (Nat × (Nat → K))) : size (r1 ++ r2) = size r1 * size r2 := by
+  induction r1 with
+  | nil => simp [size]
+  | cons p rest ih => obtain ⟨n, r⟩ := p; simp only [List.cons_append, size, ih]; ring
+
+omit [Field K] in
+theorem prod_append (a b : List Nat) : prod (a ++ b) = prod a * prod b := by
+  induction a with
+  | nil => simp [prod]
+  | cons x a ih => simp only [prod, List.cons_append, List.foldr_cons] at ih ⊢; rw [ih]; ring
+
+/-- **boundary(axis, side), on the model's list-level constructor.**  `F.dims = d1 ++ n :: d2`,
+`axis = len d1`.  If the collocation row of the fixed axis at its coordinate `y` is the unit
+vector `e_f` (`f = 0` for side 0, `n-1` for side 1: interpolatory end condition), then `F` at the
+node `ys1 ++ y :: ys2` equals the sliced function `F.boundary axis side` (knot vectors with the
+axis deleted) at the node `ys1 ++ ys2` — for every sdim, every position of the axis. -/
+theorem boundary_model {X : Type} (F : Func K) (d1 d2 : List Nat) (n side : Nat) (B : Nat → X → Info K)
+    (ys1 ys2 : List X) (y : X) (j : Nat)
+    (hd : F.dims = d1 ++ n :: d2) (hn : 0 < n) (hj : j < F.ncomp)
+    (hl1 : ys1.length = d1.length) (hl2 : ys2.length = d2.length)
+    (hunit : ∀ i, (B d1.length y).dense 0 i = if i = (if side = 0 then 0 else n - 1) then 1 else 0) :
+    contract F.at F.ncomp j (rows B 0 F.dims (ys1 ++ y :: ys2) (List.replicate F.dims.length 0)) 0
+      = contract (F.boundary d1.length side).at F.ncomp j
+          (rows B 0 d1 ys1 (List.replicate d1.length 0) ++ rows B (d1.length + 1) d2 ys2 (List.replicate d2.length 0)) 0 := by
+  set r1 := rows B 0 d1 ys1 (List.replicate d1.length 0) with hr1
+  set r2 := rows B (d1.length + 1) d2 ys2 (List.replicate d2.length 0) with hr2
+  have hs1 : size r1 = prod d1 := size_rows B d1 ys1 _ 0 hl1 (by simp)
+  have hs2 : size r2 = prod d2 := size_rows B d2 ys2 _ (d1.length + 1) hl2 (by simp)
+  have hrep : List.replicate F.dims.length 0 = List.replicate d1.length 0 ++ 0 :: List.replicate d2.length 0 := by
+    rw [hd, List.length_append, List.length_cons, List.replicate_add, List.replicate_succ]
+  have hrows : rows B 0 F.dims (ys1 ++ y :: ys2) (List.replicate F.dims.length 0)
+      = r1 ++ (n, fun i => if i = (if side = 0 then 0 else n - 1) then (1 : K) else 0) :: r2 := by
+    rw [hrep, hd, rows_append B (n :: d2) (y :: ys2) _ d1 ys1 _ 0 hl1 (by simp)]
+    simp only [rows, Nat.zero_add]
+    rw [show (B d1.length y).dense 0 = fun i => if i = (if side = 0 then 0 else n - 1) then (1 : K) else 0
+      from funext hunit]
+  rw [hrows, boundary_restriction F.at F.ncomp j n _ r1 r2 (by split_ifs <;> omega) hj]
+  rw [contract_eq_nest, contract_eq_nest]
+  apply nest_congr_bounded
+  intro k hk
+  simp only [Nat.zero_mul, Nat.zero_add]
+  rw [size_append, hs1, hs2] at hk
+  -- the sliced list
+  have hdims' : F.dims.eraseIdx d1.length = d1 ++ d2 := by
+    rw [hd, List.eraseIdx_append_of_length_le (Nat.le_refl _)]; simp
+  have hlen : k * F.ncomp + j < prod (F.dims.eraseIdx d1.length) * F.ncomp := by
+    rw [hdims', prod_append]
+    calc k * F.ncomp + j < k * F.ncomp + F.ncomp := by omega
+      _ = (k + 1) * F.ncomp := by ring
+      _ ≤ _ := Nat.mul_le_mul_right _ (by omega)
+  have hat : (F.boundary d1.length side).at (k * F.ncomp + j)
+      = F.at (sliceIndex F.dims F.ncomp d1.length side (k * F.ncomp + j)) := by
+    unfold Func.boundary Func.at
+    simp only
+    exact getD_map_range 0 _ _ _ hlen
+  rw [hat]
+  congr 1
+  unfold sliceIndex
+  have hdrop : F.dims.drop (d1.length + 1) = d2 := by
+    rw [hd, List.drop_append, List.drop_of_length_le (by omega), Nat.add_sub_cancel_left]; rfl
+  have hget : F.dims.getD d1.length 1 = n := by
+    rw [hd]; simp [List.getD_eq_getElem?_getD]
+  simp only [hdrop, hget, hs2]
+
+
 /-! ## 4. circular arcs lie on exact circles -/
 
 /-- **one rational quadratic segment.**  Control points (premultiplied, as coded)
